@@ -34,6 +34,13 @@ EncodeWith(v, palHdr) ==
   \o LE32(Len(v.anims)) \o LE32(FrameTotal(v)) \o LE32(LayerTotal(v)) \o LE32(v.unknownCount)
   \o Flatten([i \in 1..Len(v.anims) |-> AnimBytes(v.anims[i])])
 Encode(v) == EncodeWith(v, PaletteHeaderCanon)
+\* the same bytes with the header's frame and layer totals replaced (ill-formed unless they are the real totals)
+EncodeTotals(v, ft, lt) ==
+  TagCPAL \o LE32(Len(v.palettes))
+  \o Flatten([i \in 1..Len(v.palettes) |-> PaletteHeaderCanon \o PaletteBytes(v.palettes[i])])
+  \o LE32(Len(v.images)) \o Flatten([i \in 1..Len(v.images) |-> ImageBytes(v.images[i])])
+  \o LE32(Len(v.anims)) \o LE32(ft) \o LE32(lt) \o LE32(v.unknownCount)
+  \o Flatten([i \in 1..Len(v.anims) |-> AnimBytes(v.anims[i])])
 \* cross-field rules
 RoundUp4(w) == ((w + 3) \div 4) * 4
 RulesHold(v) == /\ \A i \in 1..Len(v.images) : v.images[i].pal < Len(v.palettes) /\ v.images[i].scan = RoundUp4(v.images[i].w)
